@@ -1,4 +1,5 @@
 import BumpVerif.Proofs.Rewind
+import BumpVerif.Proofs.Refill
 /-! # C11 — a failed initialiser hands back its error and leaves no residue -/
 namespace Bump.C11
 open Bump Gen
@@ -54,6 +55,17 @@ theorem inner_blocks_kept {E sz al} (inner : List Inner) (f : Bool) (y : Sys) (h
   refine ⟨h, ?_⟩
   simp only [sysStep, liveAfter] at hres ⊢
   rw [hres]
+
+/-- **No residue after a failed slice fill**: `alloc_slice_try_fill_with` / `_iter` whose closure
+fails at an index `i < n` hands back the error, and the same layout requested next is served by the
+fast path at the same address without obtaining memory — for every Rust element type (alignment
+divides size), every `MIN_ALIGN`, whether the reservation fitted the current chunk or forced a new one. -/
+theorem fill_no_residue {E esz eal n i p} (s : St) (hE : EnvOK E) (wf : ArenaWF E s.a) (hA : IsPow2 eal)
+    (hlay : esz * n + eal ≤ 2 ^ 63) (harr : arrayLayout esz eal n = some (esz * n)) (hi : i < n)
+    (hdv : eal ∣ esz) (hok : (allocLayout E (esz * n) eal s).2 = .ok p) :
+    (sliceTryFill E esz eal n (some i) s).2 = .ierr [] ∧
+    tryFast E (sliceTryFill E esz eal n (some i) s).1.a (esz * n) eal = .ok (some ((allocLayout E (esz * n) eal s).1.a, p)) :=
+  sliceTryFill_no_residue s hE wf hA hlay harr hi (Or.inr (Nat.dvd_mul_right_of_dvd hdv n)) hok
 
 /-- On success the value's slot is the reserved block and the arena is whatever the reservation
 and the initialiser's own allocations left: nothing is rewound. -/
@@ -121,5 +133,6 @@ end Bump.C11
 #print axioms Bump.C11.init_not_run_on_alloc_failure
 #print axioms Bump.C11.no_residue
 #print axioms Bump.C11.inner_blocks_kept
+#print axioms Bump.C11.fill_no_residue
 #print axioms Bump.C11.ok_keeps_slot
 #print axioms Bump.C11.fillLoop_spec
